@@ -91,6 +91,7 @@ def c07_worker(job):
                                                      dict(desc0, fail=[], skip=False)))
         ubA = {tx: dict(v) for tx, v in pipe.units_by_tx(base.trace).items()}
         validA = seqs(base)
+        c07_invalid_series(case, seed, rng, tier, out, base, canon, desc0)
         if not units:
             return out
         max_exh = 4 if tier == 'quick' else 6
@@ -183,6 +184,193 @@ def c07_worker(job):
         case.cleanup()
 
 
+INVALID_ACCEPTER_KEY = 'c07-invalid-series-of-fusion-accepter-aborts'
+
+
+def parse_invalid(log: str) -> Optional[int]:
+    import re
+    m = re.findall(r'Number of invalid transcripts: (\d+)', log)
+    return int(m[-1]) if m else None
+
+
+def c07_invalid_series(case, seed, rng, tier, out, base, canon, desc0):
+    """The OTHER failure site of callVariant: the variant series of a transcript is invalid
+    (`pool[tx_id]` raises ValueError in gather_data_for_call_variant).  With --skip-failed the
+    transcript yields no dispatch and is counted as invalid: the output must be that of a run
+    from which this transcript's records are absent, for every thread count and wherever the
+    transcript sits in the dispatch order (the LAST position with a partial batch pending is
+    the one a flush condition can get wrong); without the flag the command must abort."""
+    from moPepGen.circ import CircRNAModel
+    st = out['stats']
+    quick = tier == 'quick'
+
+    def bump(k, n=1):
+        st[k] = st.get(k, 0) + n
+    recs = case.meta['records']
+    with gen_ref.quiet():
+        _genome, anno, _ = gen_ref.load_reference(case)
+    rank = anno.get_transcript_rank()
+    order = sorted(rank, key=rank.get)
+    with_recs = pipe.tx_list(base.trace)
+    if not with_recs:
+        return
+    last = with_recs[-1]
+    behind = [t for t in order if rank[t] > rank[last]]
+    # victims: ONE of the two transcripts that can sort last in the dispatch order — the last one
+    # with records of its own, or a record-free transcript behind it (its series then consists of
+    # the bad record only) — sometimes the other one too (thorough), sometimes an inner transcript.
+    # A multi-threaded run costs ~15x a single-threaded one (pathos workers import the package),
+    # so the quick tier runs threads 1 + one thread count in 2..4 chosen such that a partial batch
+    # is pending; the thorough tier runs threads 1-4 for the last position
+    lasts = [last] + ([rng.choice(behind)] if behind else [])
+    rng.shuffle(lasts)
+    rest = [t for t in order if t not in lasts]
+    inner = rng.choice(rest) if rest else None
+    victims = [lasts[0]]
+    if not quick and len(lasts) > 1 and rng.random() < 0.3:
+        victims.append(lasts[1])
+    if inner is not None and rng.random() < (0.1 if quick else 0.5):
+        victims.append(inner)
+    gvfs_orig = list(case.gvfs)
+    try:
+        for vi, V in enumerate(victims):
+            kind = rng.choice(gen_ref.INVALID_KINDS)
+            with gen_ref.quiet():
+                bad = gen_ref.invalid_record(anno, V, kind, rng)
+                if bad is None:
+                    kind = 'beyond-gene-end'
+                    bad = gen_ref.invalid_record(anno, V, kind, rng)
+                bad_path = gen_ref.write_extra_gvf(case, [bad], f'bad_{vi}.gvf')
+            def points_to(r):
+                return (r.__class__ is not CircRNAModel and r.is_fusion()
+                        and r.attrs.get('ACCEPTER_TRANSCRIPT_ID') == V and r.transcript_id != V)
+            accepter_of = sorted({r.transcript_id for r in recs if points_to(r)})
+            inputs = gvfs_orig
+            recs_v = recs
+            if accepter_of:
+                # V is also loaded as the fusion accepter of another transcript: that load sits
+                # outside the try of gather_data_for_call_variant (open finding, known_findings.json);
+                # witness it once, then go on with the input minus those fusion records
+                if not st.get('invalid_accepter_probe_runs'):
+                    rb = gen_ref.run_call_variant(case, tag=f'inv{vi}acc', skip_failed=True,
+                                                  input_path=gvfs_orig + [bad_path])
+                    bump('invalid_accepter_probe_runs')
+                    if rb.status == 'crash:ValueError':
+                        out['violations'].append((
+                            f'--skip-failed run aborted ({rb.status}: {rb.error[:120]}): the invalid '
+                            f'series of {V} is loaded as fusion accepter of {accepter_of}',
+                            dict(desc0, invalid_tx=V, invalid_kind=kind, accepter_of=accepter_of,
+                                 skip=True, threads=1, kind='skip-aborts-accepter'),
+                            INVALID_ACCEPTER_KEY))
+                        bump('invalid_accepter_abort')
+                    elif rb.status != 'ok':
+                        out['violations'].append((
+                            f'--skip-failed run aborted ({rb.status}: {rb.error[:160]}) when the variant '
+                            f'series of {V} (fusion accepter of {accepter_of}) is invalid ({kind})',
+                            dict(desc0, invalid_tx=V, invalid_kind=kind, accepter_of=accepter_of,
+                                 skip=True, threads=1, kind='skip-aborts-invalid')))
+                recs_v = [r for r in recs if not points_to(r)]
+                with gen_ref.quiet():
+                    inputs = list(gen_ref.write_gvfs(case, recs_v, names=[f'in_{vi}.gvf'],
+                                                     circ_name=f'in_{vi}_circ.gvf'))
+                case.gvfs = list(gvfs_orig)
+            own = [r for r in recs_v if r.transcript_id == V]
+            # reference run: the same input without any record of V
+            if own or accepter_of:
+                keep = [r for r in recs_v if r.transcript_id != V]
+                with gen_ref.quiet():
+                    g0 = list(gen_ref.write_gvfs(case, keep, names=[f'wo_{vi}.gvf'],
+                                                 circ_name=f'wo_{vi}_circ.gvf'))
+                case.gvfs = list(gvfs_orig)
+                if g0:
+                    R0 = gen_ref.run_call_variant(case, tag=f'wo{vi}', input_path=g0)
+                    bump('invalid_reference_runs')
+                else:
+                    R0 = None
+            else:
+                R0 = base
+            if R0 is not None and R0.status != 'ok':
+                bump('invalid_reference_crash')
+                continue
+            exp_pairs = pairs(R0) if R0 is not None else set()
+            exp_tally = pipe.parse_tally(R0.log) if R0 is not None else [0] * 6
+            exp_txs = pipe.tx_list(R0.trace) if R0 is not None else []
+            n_disp = len({r['tx_id'] for r in R0.trace if r['kind'] == 'wrapper'}) if R0 else 0
+            pos = 'last' if (not exp_txs or rank[V] > max(rank[t] for t in exp_txs)) else 'inner'
+            vdesc = dict(desc0, invalid_tx=V, invalid_kind=kind, position=pos,
+                         bad_record={'gene': bad.location.seqname, 'start': int(bad.location.start),
+                                     'ref': bad.ref, 'alt': bad.alt, 'transcript': V},
+                         own_records=len(own), accepter_of=accepter_of, other_dispatches=n_disp)
+            inputs = list(inputs) + [bad_path]
+            bump('invalid_series_inputs')
+            bump(f'invalid_{pos}')
+            if pos == 'last' and exp_pairs:
+                bump('invalid_last_with_peptides_pending')
+            # thread counts under which a PARTIAL batch (1 .. threads-1 dispatches) is pending when
+            # the dispatch loop reaches V in last position
+            partial = [t for t in (2, 3, 4) if n_disp % t != 0]
+            if not quick and pos == 'last':
+                ths = [1, 2, 3, 4]
+            else:
+                pick = partial if (pos == 'last' and partial) else [2, 3, 4]
+                ths = [1, rng.choice(pick)]
+                more = [t for t in pick if t not in ths]
+                if more and pos == 'last' and rng.random() < 0.15:
+                    ths.append(rng.choice(more))
+            for t in ths:
+                if pos == 'last' and t in partial and exp_pairs:
+                    bump(f'invalid_last_partial_batch_pending_threads_{t}')
+            for th in ths:
+                rb = gen_ref.run_call_variant(case, tag=f'inv{vi}t{th}', input_path=inputs,
+                                              skip_failed=True, threads=th)
+                bump('invalid_skip_runs')
+                d = dict(vdesc, skip=True, threads=th)
+                if rb.status != 'ok':
+                    out['violations'].append((
+                        f'--skip-failed run aborted ({rb.status}: {rb.error[:160]}) when the variant '
+                        f'series of {V} is invalid ({kind})', dict(d, kind='skip-aborts-invalid')))
+                    continue
+                got = pairs(rb)
+                missing, extra = exp_pairs - got, got - exp_pairs
+                if missing or extra:
+                    out['violations'].append((
+                        f'with --skip-failed --threads {th} and an invalid variant series of {V} '
+                        f'({kind}; {pos} in dispatch order, {n_disp} other transcripts dispatched) the '
+                        f'output differs from the run without the records of {V}: missing '
+                        f'{sorted(missing)[:3]} ({len(missing)}) extra {sorted(extra)[:3]} ({len(extra)})',
+                        dict(d, kind='invalid-isolation')))
+                ninv = parse_invalid(rb.log)
+                tally = pipe.parse_tally(rb.log)
+                if ninv != 1 or tally != exp_tally:
+                    out['violations'].append((
+                        f'tally with an invalid series of {V} (threads {th}): invalid transcripts '
+                        f'{ninv} (expected 1), processed/failed/peptide counts {tally} (expected '
+                        f'{exp_tally} as in the run without the records of {V})',
+                        dict(d, kind='invalid-tally')))
+                # the Lean pipeline model: V yields no dispatch (`none` in the gathered list);
+                # batches, table, FASTA and tally of the real run must be the model's
+                if R0 is not None:
+                    stM = pipe.Structure(R0)
+                    txs_b = pipe.tx_list(rb.trace)
+                    stM.txs = txs_b if txs_b else sorted(set(exp_txs) | {V}, key=rank.get)
+                    if set(stM.txs) == set(exp_txs) | {V}:
+                        out['cases'].append(('run', ) + model_case(stM, rb, [], th, True, canon, d))
+                        bump('invalid_model_cases')
+            # without --skip-failed the same input must abort and leave no FASTA
+            # (a multi-threaded run costs ~15x a single-threaded one: quick tier keeps to threads 1)
+            thC = 1 if quick else rng.choice([1, 1, 1, 2, 3, 4])
+            rc = gen_ref.run_call_variant(case, tag=f'inv{vi}c', input_path=inputs,
+                                          skip_failed=False, threads=thC)
+            bump('invalid_noskip_runs')
+            if rc.status == 'ok' or rc.fasta_exists:
+                out['violations'].append((
+                    f'without --skip-failed an invalid variant series of {V} ({kind}) did not abort the '
+                    f'command (status {rc.status}, FASTA written: {rc.fasta_exists}, threads {thC})',
+                    dict(vdesc, skip=False, threads=thC, kind='invalid-no-abort')))
+    finally:
+        case.gvfs = gvfs_orig
+
+
 # ------------------------------------------------------------------- C06
 SUB_SCRIPT = r'''
 import sys, json
@@ -238,6 +426,31 @@ def make_index_dir(case) -> Optional[Path]:
     return args.output_dir
 
 
+def update_index_dir(idx_dir: Path, **cleavage):
+    """`updateIndex` on an existing index directory: adds a canonical pool for other cleavage
+    parameters (everything else in the directory must stay as it is)."""
+    gen_ref._imports()
+    from moPepGen.cli.update_index import update_index
+    args = argparse.Namespace()
+    args.command = 'updateIndex'
+    args.index_dir = idx_dir
+    args.cleavage_rule = 'trypsin'
+    args.cleavage_exception = None
+    args.min_mw = 500.
+    args.min_length = 7
+    args.max_length = 25
+    args.miscleavage = 2
+    args.quiet = True
+    args.force = False
+    args.debug_level = 1
+    for k, v in cleavage.items():
+        if not hasattr(args, k):
+            raise KeyError(k)
+        setattr(args, k, v)
+    with gen_ref.quiet():
+        update_index(args)
+
+
 def index_gvf_files(case, gvfs):
     gen_ref._imports()
     from moPepGen.cli.index_gvf import index_gvf
@@ -264,6 +477,21 @@ def c06_worker(job):
     try:
         recs = case.meta['records']
         from moPepGen.circ import CircRNAModel
+        planted = 0
+        if rng.random() < 0.75:
+            # variant peptides that ONLY the global canonical pool removes: the I->L image of a
+            # canonical peptide (not in the per-transcript deny-list), so that a wrong / stale /
+            # foreign pool behind any of the reference routes shows in the peptide set
+            with gen_ref.quiet():
+                genome, anno, _ = gen_ref.load_reference(case)
+                extra = gen_ref.plant_i_to_l(anno, genome, rng, 2)
+            have = {(r.attrs.get('TRANSCRIPT_ID'), r.id) for r in recs
+                    if r.__class__ is not CircRNAModel}
+            extra = [r for r in extra if (r.attrs.get('TRANSCRIPT_ID'), r.id) not in have]
+            recs = recs + extra
+            planted = len(extra)
+            case.meta['records'] = recs
+        out['stats']['planted_i_to_l_records'] = planted
         nvar = len([r for r in recs if r.__class__ is not CircRNAModel])
         with gen_ref.quiet():
             gvfs0 = list(gen_ref.write_gvfs(case, recs))
@@ -344,7 +572,7 @@ def c06_worker(job):
             if p.exists():
                 p.unlink()
         # index directory instead of raw reference
-        if rng.random() < (0.5 if tier == 'quick' else 1.0):
+        if rng.random() < (0.7 if tier == 'quick' else 1.0):
             idx_dir = make_index_dir(case)
             r = gen_ref.run_call_variant(case, tag='refidx', index_dir=idx_dir, input_path=gvfs0,
                                          **common_kw)
@@ -354,6 +582,40 @@ def c06_worker(job):
                                           dict(desc0, variation='index-dir')))
             else:
                 compare('reference from generateIndex directory', seqs(r), {})
+            # the same directory after ONE updateIndex that added a pool for OTHER cleavage
+            # parameters, read with the ORIGINAL parameters: the added pool must not replace or
+            # shadow the pool of the original parameters
+            upd = rng.choice([dict(miscleavage=0), dict(miscleavage=0), dict(miscleavage=1),
+                              dict(miscleavage=3), dict(min_length=9), dict(cleavage_rule='lysc')])
+            try:
+                update_index_dir(idx_dir, **upd)
+                upd_ok = True
+            except BaseException as e:   # noqa  SystemExit included
+                if isinstance(e, KeyboardInterrupt):
+                    raise
+                upd_ok = False
+                out['violations'].append((
+                    f'updateIndex {upd} on a fresh generateIndex directory failed: '
+                    f'{type(e).__name__} {str(e)[:200]}', dict(desc0, variation=f'updateIndex {upd}')))
+            if upd_ok:
+                r = gen_ref.run_call_variant(case, tag='refidx2', index_dir=idx_dir,
+                                             input_path=gvfs0, **common_kw)
+                out['stats']['updated_index_dir_runs'] = \
+                    out['stats'].get('updated_index_dir_runs', 0) + 1
+                vtag = (f'reference from a generateIndex directory that went through one updateIndex '
+                        f'{upd} (callVariant with the original cleavage parameters)')
+                if r.status != 'ok':
+                    out['violations'].append((f'--index-dir run after updateIndex {upd} crashed: '
+                                              f'{r.status} {r.error}', dict(desc0, variation=vtag)))
+                else:
+                    compare(vtag, seqs(r), {'update_index': upd})
+                    glob = sum(1 for w in r.trace if w['kind'] == 'wrapper'
+                               for sq in w['peptides'] if sq in canon)
+                    out['stats']['globally_filtered_peptides'] = \
+                        out['stats'].get('globally_filtered_peptides', 0) + glob
+                    if glob:
+                        out['stats']['updated_index_runs_with_global_filtering'] = \
+                            out['stats'].get('updated_index_runs_with_global_filtering', 0) + 1
         # timeout-driven retry of ONE transcript must not change the limits of the others,
         # for any thread count (the retry state is per dispatch)
         gathered = [t for t in struct.txs if t in struct.gathered]
@@ -423,6 +685,12 @@ def c04_worker(job):
                 recs = recs + gen_ref.plant_i_to_l(anno, genome, rng, 2)
                 recs = gen_ref.duplicate_isoforms(case, recs)
             gen_ref.write_gvfs(case, recs)
+            # non-coding twins of coding transcripts: callNovelORF re-derives canonical peptides
+            # (incl. the Met-removed, miscleaved N-terminal ones) from ANOTHER transcript
+            twins = gen_ref.noncoding_twins(case, rng, 0.7) if rng.random() < 0.7 else []
+        if twins:
+            out['stats']['noncoding_twin_inputs'] = 1
+            out['stats']['noncoding_twins'] = len(twins)
         if not case.gvfs:
             out['stats']['empty'] = 1
             return out
@@ -435,9 +703,16 @@ def c04_worker(job):
                   w2f_reassignment=rng.random() < 0.5)
         limits = (kw['min_mw'], kw['min_length'], kw['max_length'])
         canon = pipe.canonical_pool(case, **kw)
+        # "is canonical" judged by a pool that does not come from the code under test
+        canon_model = pipe.lean_canonical_pool(case, **kw)
+        if canon_model is None:
+            out['stats']['lean_pool_unavailable'] = 1
+        else:
+            out['stats']['lean_pool_inputs'] = 1
+            out['stats']['lean_pool_peptides'] = len(canon_model)
         run = gen_ref.run_call_variant(case, tag='cv', **kw)
-        desc = dict(seed=seed, n_genes=n_genes, command='callVariant',
-                    **{k: v for k, v in kw.items()})
+        desc = dict(seed=seed, n_genes=n_genes, command='callVariant', multi_isoform=multi,
+                    noncoding_twins=twins, **{k: v for k, v in kw.items()})
         if run.status != 'ok':
             out['stats']['callvariant_crash'] = 1
         else:
@@ -446,7 +721,7 @@ def c04_worker(job):
             struct = pipe.Structure(run)
             line, lab = pipe.model_line(struct, run, set(), 1, False, limits, canon)
             out['cases'].append(('run', line, pipe.real_line(struct, run, lab), desc))
-            for v in pipe.hygiene_violations(run, canon, limits)[:3]:
+            for v in pipe.hygiene_violations(run, canon, limits, canon_model=canon_model)[:3]:
                 out['violations'].append((f'callVariant: {v}', dict(desc, kind='hygiene')))
             if multi:
                 th = rng.choice([2, 3])
@@ -459,7 +734,8 @@ def c04_worker(job):
                     out['stats']['globally_rejected_peptides'] = rej
                     line2, lab2 = pipe.model_line(struct, run2, set(), th, False, limits, canon)
                     out['cases'].append(('run', line2, pipe.real_line(struct, run2, lab2), d2))
-                    for v in pipe.hygiene_violations(run2, canon, limits)[:3]:
+                    for v in pipe.hygiene_violations(run2, canon, limits,
+                                                     canon_model=canon_model)[:3]:
                         out['violations'].append((f'callVariant --threads {th}: {v}',
                                                   dict(d2, kind='hygiene')))
         # callNovelORF / callAltTranslation
@@ -473,7 +749,8 @@ def c04_worker(job):
                 continue
             out['stats'][cmd + '_runs'] = 1
             out['stats'][cmd + '_peptides'] = len(r2.fasta)
-            for v in pipe.hygiene_violations(r2, canon2, limits, check_table=False)[:3]:
+            for v in pipe.hygiene_violations(r2, canon2, limits, check_table=False,
+                                             canon_model=canon_model)[:3]:
                 out['violations'].append((f'{cmd}: {v}', dict(d2, kind='hygiene')))
             # pool model: every (seq, entry) added through add_peptide
             adds = ','.join(f'{s}' for s in r2.fasta)
